@@ -369,9 +369,21 @@ impl Optimizer {
                             }
                         } else if refs_right && !refs_left {
                             // Predicate only references right side - push down to right
-                            // Need to adjust column indices
+                            // Need to adjust column indices. The join emits all left
+                            // columns followed by the right columns that are NOT join
+                            // keys, so output column `left_cols + k` is the k-th
+                            // non-key column of the right input.
+                            let right_cols = right.output_schema().len();
+                            let right_non_keys: Vec<usize> = (0..right_cols)
+                                .filter(|c| !right_keys.contains(c))
+                                .collect();
                             let adjusted_predicate =
-                                Self::adjust_predicate_columns(&predicate, -(left_cols as i32));
+                                Self::map_predicate_columns(&predicate, &|col: usize| {
+                                    right_non_keys
+                                        .get(col - left_cols)
+                                        .copied()
+                                        .unwrap_or(col - left_cols)
+                                });
                             IRNode::Join {
                                 left,
                                 right: Box::new(IRNode::Filter {
@@ -522,9 +534,15 @@ impl Optimizer {
     }
 
     /// Adjust column indices in a predicate by an offset
+    #[cfg_attr(not(test), allow(dead_code))]
     fn adjust_predicate_columns(predicate: &Predicate, offset: i32) -> Predicate {
-        let adjust = |col: usize| -> usize { ((col as i32) + offset) as usize };
+        Self::map_predicate_columns(predicate, &|col: usize| -> usize {
+            ((col as i32) + offset) as usize
+        })
+    }
 
+    /// Rewrite every column index in a predicate through `adjust`
+    fn map_predicate_columns(predicate: &Predicate, adjust: &dyn Fn(usize) -> usize) -> Predicate {
         match predicate {
             Predicate::ColumnEqConst(col, val) => Predicate::ColumnEqConst(adjust(*col), *val),
             Predicate::ColumnNeConst(col, val) => Predicate::ColumnNeConst(adjust(*col), *val),
@@ -570,12 +588,12 @@ impl Optimizer {
                 Predicate::ArithCompareConst(expr.clone(), op.clone(), *val, new_var_map)
             }
             Predicate::And(left, right) => Predicate::And(
-                Box::new(Self::adjust_predicate_columns(left, offset)),
-                Box::new(Self::adjust_predicate_columns(right, offset)),
+                Box::new(Self::map_predicate_columns(left, adjust)),
+                Box::new(Self::map_predicate_columns(right, adjust)),
             ),
             Predicate::Or(left, right) => Predicate::Or(
-                Box::new(Self::adjust_predicate_columns(left, offset)),
-                Box::new(Self::adjust_predicate_columns(right, offset)),
+                Box::new(Self::map_predicate_columns(left, adjust)),
+                Box::new(Self::map_predicate_columns(right, adjust)),
             ),
             Predicate::True => Predicate::True,
             Predicate::False => Predicate::False,
